@@ -309,6 +309,12 @@ func (p c04) Run(c *core.Ctx) {
 		c.Violate("a script of generated, syntactically valid lines failed to load", map[string]any{"readers": scripts, "error": fmt.Sprint(err), "panic": pan})
 		return
 	}
+	// the host of one script in two writes into the tag slices of the elements it is handed (they are its values):
+	// the next showing of the same line or option carries the tags the script gives it
+	if r.Bool() {
+		pair.R.Scribble = true
+		c.Feature("host-overwrites-the-tags-of-returned-elements")
+	}
 	var choices []int
 	for step := 0; step < 200; step++ {
 		choice := 0
